@@ -80,9 +80,10 @@ VARIABLES tid, l
 Traces == JsonDeserialize(IOEnv.TRACE_FILE)
 TInit == Init /\\ tid \\in 1..Len(Traces) /\\ l = 1
 TStep(e) == %(tdo)s /\\ ret' = e.ret /\\ Matches(e.st)'
-TNext == /\\ l <= Len(Traces[tid]) /\\ l' = l + 1 /\\ tid' = tid
+EndsHere == l <= Len(Traces[tid]) /\\ \\E e \\in {Traces[tid][l]} : %(endsat)s
+TNext == /\\ l <= Len(Traces[tid]) /\\ l' = l + 1 /\\ tid' = tid /\\ ~EndsHere
          /\\ \\E e \\in {Traces[tid][l]} : TStep(e)
-Done == l = Len(Traces[tid]) + 1
+Done == l = Len(Traces[tid]) + 1 \\/ EndsHere
 Stuck == ~Done /\\ ~ENABLED TNext
 NoStuck == ~Stuck \\/ PrintT("REJECT " \\o ToString(tid) \\o " " \\o ToString(l))
 Accept == ~Done \\/ PrintT("ACCEPT " \\o ToString(tid))
@@ -107,8 +108,20 @@ def cfg_text(init, nxt, constants, invariants=(), properties=(), view=None,
     if constants:
         lines.append("CONSTANTS")
         for k, v in constants.items():
-            lines.append("  %s = %s" % (k, v))
+            if needs_def(v):
+                lines.append("  %s <- C_%s" % (k, k))
+            else:
+                lines.append("  %s = %s" % (k, v))
     return "\n".join(lines) + "\n" + extra
+
+
+def needs_def(v):
+    """cfg files only take numbers, strings, model values and sets of them."""
+    return any(t in v for t in ("<<", "[", "|->", "..", "\\"))
+
+
+def const_defs(constants):
+    return "\n".join("C_%s == %s" % (k, v) for k, v in constants.items() if needs_def(v))
 
 
 # ---------------------------------------------------------------------------
@@ -175,7 +188,8 @@ def gen_replay(ctx, mod, constants, depth, adapter, acfg=None, invariants=(), pr
     EDGE on the implementation.  Returns dict of counters."""
     global _ADAPTER, _ACFG
     name = "%s_%s" % (mod, label)
-    text = GEN_TMPL % dict(name=name, mod=mod, depth=depth, extra=extra_defs)
+    text = GEN_TMPL % dict(name=name, mod=mod, depth=depth,
+                           extra=extra_defs + "\n" + const_defs(constants))
     cfg = cfg_text("GInit", "GNext", constants, invariants=invariants, properties=properties,
                    view=None if simulate else "GView",
                    constraints=("Bound",) + tuple(constraints),
@@ -245,7 +259,7 @@ def gen_replay(ctx, mod, constants, depth, adapter, acfg=None, invariants=(), pr
 
 
 def trace_validate(ctx, mod, constants, traces, label="trace", extra_defs="", classify=None,
-                   timeout=1500, workers=None, tdo="Do(e.o)"):
+                   timeout=1500, workers=None, tdo="Do(e.o)", endsat="FALSE"):
     """traces: list of lists of events {o, ret, st} (JSON).  TLC validates the batch; returns
     the list of (trace index, position) rejections."""
     name = "%s_%s" % (mod, label)
@@ -253,7 +267,8 @@ def trace_validate(ctx, mod, constants, traces, label="trace", extra_defs="", cl
     tf = os.path.join(d, "traces.json")
     with open(tf, "w") as f:
         json.dump(jsonable(traces), f)
-    text = TRACE_TMPL % dict(name=name, mod=mod, extra=extra_defs, tdo=tdo)
+    text = TRACE_TMPL % dict(name=name, mod=mod, extra=extra_defs + "\n" + const_defs(constants),
+                             tdo=tdo, endsat=endsat)
     cfg = cfg_text("TInit", "TNext", constants, invariants=("NoStuck", "Accept"))
     rejects = {}
     accepted = set()
@@ -314,7 +329,7 @@ def record_traces(adapter, acfg, gen_op, n_traces, length, rng):
     return traces
 
 
-def selftest_trace_binding(ctx, mod, constants, traces, corrupt, tdo="Do(e.o)"):
+def selftest_trace_binding(ctx, mod, constants, traces, corrupt, tdo="Do(e.o)", endsat="FALSE"):
     """Anti-vacuity: corrupt one recorded field; TLC must reject exactly that trace."""
     import copy
     t2 = copy.deepcopy(jsonable(traces[:3]))
@@ -322,7 +337,7 @@ def selftest_trace_binding(ctx, mod, constants, traces, corrupt, tdo="Do(e.o)"):
     sub = core.Ctx(ctx.pid, ctx.tier, ctx.seed)
     sub.violation = lambda kind, detail: sub.violations.append({"kind": kind, "detail": detail})
     try:
-        bad = trace_validate(sub, mod, constants, t2, label="selftest", tdo=tdo)
+        bad = trace_validate(sub, mod, constants, t2, label="selftest", tdo=tdo, endsat=endsat)
     finally:
         sub.cleanup()
     if not bad:
